@@ -24,6 +24,9 @@ OBLIGATIONS = [
      "defs": ["-DCL=5"], "unwind": 40, "timeout": 300,
      "title": "sm9_do_decrypt accepts only if all 32 bytes of C3 equal HMAC(K2, C2); M = C2 xor K1", "bounds": "C2 of 5 bytes, all contents",
      "stubs": ["sm9_kem_decrypt: arbitrary key material / verdict", "sm3_hmac_*: ideal MAC probe"]},
+    {"id": "C17.hash1", "harness": "harness/C17/hash1.c", "entry": "h_hash1", "units": ["sm9_key.c"], "unwind": 40, "timeout": 300,
+     "title": "sm9_z256_hash1 absorbs 0x01 || the whole identity || hid || counter in both evaluations and reduces digest1 || digest2", "bounds": "identity length 1..8191 (symbolic), any hid",
+     "stubs": ["sm3_*: call probe (pointer, length)", "sm9_z256_modn_from_hash: recorder"]},
     {"id": "C17.sm9_encrypt_mac", "harness": "harness/C17/dec.c", "entry": "h_sm9_encrypt", "units": ["sm9_enc.c"],
      "remove": {"sm9_enc.c": ["sm9_kem_decrypt", "sm9_kem_encrypt", "sm9_do_decrypt", "sm9_encrypt", "sm9_decrypt", "sm9_ciphertext_to_der", "sm9_ciphertext_from_der", "sm9_ciphertext_print"]},
      "defs": ["-DCL=5"], "unwind": 40, "timeout": 300,
